@@ -22,7 +22,7 @@ import lib
 from lib import zlit, vlist
 
 LEVEL = "proof"
-UNITS = ["GenSignatures", "GenCtxGeometry"]
+UNITS = ["GenSignatures", "GenCtxGeometry", "GenContextShape"]
 
 SCP = dict(sver=0, read=2, write=3, fill=5, link_read=17, link_write=18, nnp=20, signal=22, ffd=23, led=25,
            iptag=26, alloc_free=28, router=29, info=31, bmp_info=48, power=57)
@@ -472,6 +472,10 @@ def cval(v):
         return "(VBool %s)" % ("true" if v else "false")
     if isinstance(v, int):
         return "(VInt %s)" % zlit(v)
+    if "seq" in v:
+        # a collection in iteration order; a set of small non-negative ints iterates in ascending order (CPython)
+        q = sorted(v["seq"]) if v.get("kind") == "set" else v["seq"]
+        return "(VSeq %s)" % vlist(zlit(b) for b in q)
     return "(VTok %s)" % zlit(v["t"])
 
 
@@ -506,22 +510,43 @@ def copt(x, f=zlit):
     return "None" if x is None else "(Some %s)" % f(x)
 
 
-def coq_case(c):
+def coq_machine(d):
+    """the simulated machine as the model's dmachine: each Ethernet chip with (connection kept?, connection)"""
+    base = d.get("id_base", 0)
+    return "(MkDMachine %s %s (%s, %s) %s)" % (
+        zlit(d["w"]), zlit(d["h"]), zlit(d["root"][0]), zlit(d["root"][1]),
+        vlist("((%s, %s), (%s, %s))" % (zlit(xy[0]), zlit(xy[1]), "true" if st == "ok" else "false", zlit(base + i + 1))
+              for i, (xy, st) in enumerate(d["eth"])))
+
+
+def coq_ctl(c):
     t = c["ctl"]
-    ctl = "(MkCtl %s %s %s %s %s)" % (
+    if c.get("discover"):
+        # the controller's state is what the model's discover_step makes of the fresh controller
+        ctl = "(MkCtl None None None [] [])"
+        for d in (c["discover"], c.get("discover2")):
+            if d:
+                ctl = "(discover_step %s %s)" % (coq_machine(d), ctl)
+        return ctl
+    return "(MkCtl %s %s %s %s %s)" % (
         copt(t["width"]), copt(t["height"]), copt(t["root"], lambda xy: "(%s, %s)" % (zlit(xy[0]), zlit(xy[1]))),
         vlist("((%s, %s), %s)" % (zlit(xy[0]), zlit(xy[1]), zlit(i)) for xy, i in t["conns"]),
         vlist("(%s, %s)" % (vlist(zlit(a) for a in k), zlit(i)) for k, i in t["bmp"]))
+
+
+def coq_case(c):
+    ctl = coq_ctl(c)
     if c["init"] is None:
         init = "mc_initial_context" if c["cls"] == "MC" else "bmp_initial_context"
     else:
         init = ckw(c["init"])
-    return "flat_res (run_ops %s %s %s [mkdict %s])" % (ctl, cstr(c["cls"]), cops(c["ops"]), init)
+    return "(flat_ctl %s, flat_res (run_ops %s %s %s [mkdict %s]))" % (
+        ctl if c.get("discover") else "(MkCtl None None None [] [])", ctl, cstr(c["cls"]), cops(c["ops"]), init)
 
 
 def jval(fv):
-    tag, z = fv
-    return {0: z, 1: None, 2: bool(z), 3: {"t": z}}[tag]
+    tag, z, l = fv
+    return {0: z, 1: None, 2: bool(z), 3: {"t": z}, 4: {"seq": list(l)}}[tag]
 
 
 # ------------------------------------------------------------------ model vs implementation
@@ -545,6 +570,10 @@ def entry_matches(w, e, full=True):
         v = jval(v)
         if isinstance(v, bool):
             v = int(v)
+        if fk == 1 and isinstance(v, dict) and "seq" in v:
+            if a != sum(1 << b for b in v["seq"]):
+                return False
+            continue
         if not isinstance(a, int) or not isinstance(v, int):
             return False
         if fk == 0 and (a >> sh) & 0xff != v & 0xff:
@@ -573,7 +602,16 @@ def outcome_agrees(model, trace, exc):
 
 
 def compare(case, out, val):
-    mev, mstack, mraised = val
+    w, h, root, conns, (mev, mstack, mraised) = val      # Coq prints ((w, h, root, conns), res) flat
+    if case.get("discover"):
+        # the state discover_connections() left against the model's discover_step
+        got = out.get("ctl_after") or {}
+        model = [w, h, [list(r) for r in root], sorted([[cx, cy], k] for cx, cy, k in conns)]
+        impl = [got.get("width"), got.get("height"), [got.get("root")] if got.get("root") is not None else [],
+                sorted(got.get("conns", []))]
+        if model != impl or out.get("discover_exc"):
+            return "state after discover_connections(): model (discover_step) %r, implementation %r %s" % (
+                model, impl, out.get("discover_exc") or "")
     iev = [e for e in out["events"] if e[0] != "stack"]
     if len(mev) != len(iev):
         return "model has %d events, implementation %d" % (len(mev), len(iev))
@@ -1009,7 +1047,12 @@ def run(chk, args):
         "histories that start with discover_connections() run it for real against a simulated multi-board machine "
         "(harness/impl_c18.py Machine: Ethernet links up/down, probes that time out, dead chips); the model and "
         "the oracle start from the state that must result (connections discovered AND kept)"]
-    chk.regenerate(UNITS)
+    chk.regenerate(UNITS[:2])
+    evaluable = chk.model_ok
+    # the shape unit is imported by Proofs/ContextDeepen.v only: when it is Unsupported the proofs are broken
+    # (reported), but Model/Context.v can still be evaluated for the correspondence run
+    chk.regenerate(UNITS[2:])
+    chk.model_ok = evaluable
     chk.prove()
     try:
         sigs, info = load_signatures(chk)
@@ -1108,9 +1151,7 @@ def run(chk, args):
             state["sampled"] = True
         if chk.model_ok:
             try:
-                idx = [i for i, o in enumerate(outs)
-                       if isinstance(o, dict) and '"seq"' not in json.dumps(batch[i]["ops"])]
-                chk.count("oracle-only-histories(board sequences)", len(outs) - len(idx))
+                idx = [i for i, o in enumerate(outs) if isinstance(o, dict)]
                 vals = chk.coq_eval(header, [coq_case(batch[i]) for i in idx], shard=100, name="cases%d" % lo)
                 for i, v in zip(idx, vals):
                     chk.traces_validated += 1
